@@ -239,6 +239,9 @@ def check(col: Collector, tier: str):
     col.add("C10.R6", "terminal.get_dereferenced_type", "depth-lowered-by-one-on-a-copy", "new_t._p_depth -= 1" in s and "copy.copy(self)" in s and "raise" in s, "", gd.loc)
 
     # ------------------------------------------------------------ R7 tree type (shared with C03)
+    from sa.props._tr import import_obligations
+    import_obligations(col, "C10.R8", "c07", lambda o: o.rule == "C07.R5" and ("store-into" in o.detail or "merge-into" in o.detail or o.detail == "registries-not-imported-by-value"),
+                       "a declared type that is written into a table shared with the built-in defaults is honoured for the wrong queries")
     from sa.props.c03 import check_tree_type
     check_tree_type(col, "C10.R7", repo)
 
